@@ -17,6 +17,18 @@ CHECKS = {
             "sizes (0..2^14+2048) are covered by a landmark model whose paths are replayed with real bytes.",
             "Trusts TLC, the TLA+ value parser and the scripted net.Conn; byte values are abstract in the model and concrete "
             "in the replay; lengths >= 65531 (uint16 wrap) are outside the quantifier."),
+    'C01': ("JA3.tla (token machine of ja3.Bare refines the ideal JA3 string) checked exhaustively by TLC; every final state replayed as a "
+            "synthesized ClientHello through tlsx + ja3.Bare + fingerprint.JA3Fingerprint; utls hellos through the real proxy stack with "
+            "expected values evaluated by TLC on the independently parsed hello",
+            "TLC enumerates every list shape up to the bound (GREASE first/last/only/all, empty lists, no extensions) and checks the "
+            "implementation-shaped machine against the ideal; each state is an implementation test; real handshakes over both protocols, "
+            "two requests per connection, concurrent connections and re-segmented delivery tie the header at the backend to the bytes the client sent.",
+            "MD5, the harness hello synthesizer/parser and utls (as a client) are trusted; stack-level hellos are a sample; known findings D7, D9a are reported as KNOWN-FINDING."),
+    'C02': ("JA4.tla (part a and pre-hash strings of b, c; metamorphic moves with the action property Invariance) checked by TLC; every reachable "
+            "state replayed through utls + pkg/ja4 (header and exported pre-hash fields); utls hellos through the real proxy stack",
+            "TLC enumerates cipher/extension/signature-algorithm/supported_versions/ALPN shapes up to the bound plus >99 shapes and proves the "
+            "order/GREASE invariance on the specification; each state is an implementation test with SHA-256 applied by the harness; real handshakes as in C01.",
+            "SHA-256, the harness hello synthesizer/parser and utls (as a client) are trusted; dont-care ALPN classes are logged only; known findings D9a, D9b are reported as KNOWN-FINDING."),
 }
 
 NOT_YET = {}
